@@ -65,7 +65,11 @@ func init() {
 		Floors:     map[string]int{"C07 prepares judged": 500, "C07 leader proposals judged": 200, "adv forgedNV": 1000},
 		Judged:     []string{"C07 prepares judged", "C07 adoptions judged", "C07 leader proposals judged", "C07 leader proposals with a certified block judged"},
 		Extra:      scriptedBare("C07")})
-	reg(&sim.SimCheck{Prop: "C08", Workload: "c08", Profile: advProfile(merge(map[string]int{"barePP": 5}, map[string]int{"mutate": 60, "outsider": 15, "vcGames": 12, "hugeView": 8, "twistedNV": 8}), 400, 2),
+	reg(&sim.SimCheck{Prop: "C08", Workload: "c08", Profile: withOpts(advProfile(merge(map[string]int{"barePP": 5}, map[string]int{"mutate": 60, "outsider": 15, "vcGames": 12, "hugeView": 8, "twistedNV": 8, "support": 10}), 400, 3), func(p *sim.Profile) {
+		// a third of the cases with the main-loop -> worker hand-off split in two steps and more node syncs: messages then also
+		// meet a node between two heights (committees differ between heights)
+		p.SplitPct, p.SyncPct, p.ReverseToLaggers = 35, 4, true
+	}),
 		QuickCases: 5000, ThoroughCases: 100000,
 		NonTrivial: func(r *sim.Result) bool {
 			return r.Stats["C08 must-ignore deliveries"] > 0 && r.Stats["delivered adversarial"] > 0
